@@ -12,7 +12,7 @@ Correspondence (K):
       expression, --begin / --end / both, compared with Filter.report_posts on the same abstract journal.
   (f) tag terms with a value (`%word=value`, `tag|meta|data word=value`, has_tag(/word/, /value/) under --limit) on
       journals whose items carry several valued tags with overlapping names, compared with the model and judged
-      against the tags the register displays (finding F207: the first name-matching tag decides).
+      against the tags the register displays (F207, repaired: the first name-matching tag used to decide).
 Oracle (O): the set identities of the property text between the paired ledger runs (python sets over the
   printed rows; no predicate is evaluated in python)."""
 import datetime, os, re
@@ -24,7 +24,7 @@ META = dict(
     id='C07',
     level='proof',
     technique='Coq proof (set algebra of the posting filter over a model of predicate evaluation; query lexer/parser model with a parse theorem for rendered query trees) + differential correspondence of the extracted model against ledger',
-    level_text='Theorems in coq/Properties/Properties_C07.v state, for all posting lists and all predicates whose evaluation does not error: --limit P and --limit !P select disjoint order-preserving sub-sequences of the unfiltered list that merge back to it, with every posting passed through unchanged; & and | (with the non-boolean results of op.cc O_AND/O_OR/O_NOT) select intersection and union; several limits compose, and sequences of limit contributions (--limit, -b, -e, -C, -U, --pending, -R, -L, -c, -p bounds, the query - all through the limit_ handler whose combine expression the translator re-reads from report.h/option.h on every run) select the intersection of what each selects alone, independent of order and repetition (the one exception, -c under -e, is finding F95 and stated as current_with_end_refuted); has_tag(word, value) never selects a posting without a tag containing word whose value contains value and selects every such posting when the name-matching valued tags agree (in general the first name-matching tag decides: finding F207, has_tag_value_complete_refuted); --begin D / --end D keep exactly date >= D / date < D and are complementary; and the model of the command-line query parser (query.cc lexer and precedence ladder, transcribed) maps a rendered query tree (account/payee/code/note terms, not/and/or in both spellings, juxtaposition, minimal parentheses; one token per argument) to the intended expression in both lexing modes, so such a query selects what its expression selects (query_parse_spec_partial: tag selectors, expr, quoted patterns and several tokens per argument are covered by the correspondence only). The model is tied to the code by comparing the parsed predicate text of thousands of generated argument vectors (`query` pre-command, both lexing modes) the register rows of generated journals under fifteen paired limit settings, and option sequences with repetitions in two orders against each contribution alone, with the extracted model.',
+    level_text='Theorems in coq/Properties/Properties_C07.v state, for all posting lists and all predicates whose evaluation does not error: --limit P and --limit !P select disjoint order-preserving sub-sequences of the unfiltered list that merge back to it, with every posting passed through unchanged; & and | (with the non-boolean results of op.cc O_AND/O_OR/O_NOT) select intersection and union; several limits compose, and sequences of limit contributions (--limit, -b, -e, -C, -U, --pending, -R, -L, -c, -p bounds, the query - all through the limit_ handler whose combine expression the translator re-reads from report.h/option.h on every run) select the intersection of what each selects alone, independent of order and repetition (the one exception, -c under -e, is finding F95 and stated as current_with_end_refuted); has_tag(word, value) selects exactly the postings that have (or whose transaction has) a tag containing word whose value contains value (has_tag_value_sound, has_tag_value_complete; F207, repaired); --begin D / --end D keep exactly date >= D / date < D and are complementary; and the model of the command-line query parser (query.cc lexer and precedence ladder, transcribed) maps a rendered query tree (account/payee/code/note terms, not/and/or in both spellings, juxtaposition, minimal parentheses; one token per argument) to the intended expression in both lexing modes, so such a query selects what its expression selects (query_parse_spec_partial: tag selectors, expr, quoted patterns and several tokens per argument are covered by the correspondence only). The model is tied to the code by comparing the parsed predicate text of thousands of generated argument vectors (`query` pre-command, both lexing modes) the register rows of generated journals under fifteen paired limit settings, and option sequences with repetitions in two orders against each contribution alone, with the extracted model.',
     level_note='Trusted: Coq kernel; extraction + OCaml driver and the python harness for the correspondence. Regular expressions are literal patterns (case-insensitive ASCII substring search stands for boost::regex icase search); the value-expression parser that reads --limit text and `expr ARG` is C15\'s subject and is a parameter of the query model; journal text -> in-memory posting (notes, tags, state inheritance) is computed by the harness renderer and validated through the same correspondence. show/only/bold/for/since/until query sections are outside the modelled fragment.',
     design_ref='DESIGN.md section 7 C07',
     assumptions=['patterns are literal: letters, digits, space, colon (no regex metacharacters); ASCII only',
